@@ -190,7 +190,7 @@ func ruleWarcWait(r *core.Reporter) {
 	}
 	isWait := func(in ssa.Instruction) bool {
 		if u, ok := in.(*ssa.UnOp); ok && u.Op == token.ARROW {
-			return isAttemptChan(u.X)
+			return isAttemptChan(ir.Strip(u.X))
 		}
 		// a helper that receives from the channel it is given, on every path
 		if c, ok := in.(*ssa.Call); ok {
